@@ -8,6 +8,7 @@ declare -A PROPS=(
  [h2_1]="C05 C06" [h2_2]="C05 C19" [h2_3]="C06" [h2_4]="C08 C02" [h2_5]="C09" [h2_6]="C09" [h2_7]="C09" [h2_8]="C10"
  [h3_1]="C02" [h3_2]="C02" [h3_3]="C01" [h3_4]="C03" [h3_5]="C09 C17" [h3_6]="C01 C03" [h3_7]="C03" [h3_8]="C13" [h3_9]="C17" [h3_10]="C11 C16"
  [mine_idioms]="C01 C02 C03"
+ [h4_1]="C14" [h4_2]="C14" [h4_3]="C15" [h4_4]="C15" [h4_5]="C15" [h4_6]="C15" [h4_7]="C20" [h4_8]="C20" [h4_9]="C08" [h4_10]="C09 C17"
 )
 names=${@:-$(ls harmless/*.diff | xargs -n1 basename | sed 's/\.diff$//')}
 fail=0
